@@ -28,13 +28,13 @@ theorem CodOK.ncd {p : Fun.CheckedProgram} {q : Core.Prog} (h : CodOK p q) {ty :
 
 section
 variable (hcod : CodOK p q)
-  {env : Fun.Env} {K : Fun.Stack} {ρ0 ρ : CEnv} {n : Nat} {out : Out} (Sx : Core.Term → Core.Stmt)
+  {env : Fun.Env} {K : Fun.Stack} {ρ0 ρ : CEnv} {n : Nat} {out : Out} {cp : Bool} {μ : Nat} (Sx : Core.Term → Core.Stmt)
   (hsp : ∀ A, A.isVar = false → (Sx A).split = some (.prd, A, Sx))
   (hK : ∀ τ, KRel (GP p) q (n + 1) K
     (.mutilde ρ (Core.sigmaName n) (Sx (.var .prd (Core.sigmaName n) τ))))
   (hF : ∀ ρ' n' z τ v V, n ≤ n' → SigExt n ρ ρ' → Core.Env.lookup ρ' z = .ok V →
     VRel (GP p) q n v V → (z.name = sig → z.id < n') →
-    Chunk p q (R p q) true (.ret v K) ⟨Sx (.var .prd z τ), ρ', out, n'⟩)
+    Chunk p q (R p q) true cp μ (.ret v K) ⟨Sx (.var .prd z τ), ρ', out, n'⟩)
 include hsp
 
 /-- a direct producer in operand position -/
@@ -46,14 +46,14 @@ theorem operand_direct {b : Fun.Term} (hd : pureD p (goodClauses p) b = true) {t
     (hncB : Core.isCodata q.codataTypes B.ty = false)
     (hF : ∀ ρ' n' z τ v V, n ≤ n' → SigExt n ρ ρ' → Core.Env.lookup ρ' z = .ok V →
       VRel (GP p) q n v V → (z.name = sig → z.id < n') →
-      Chunk p q (R p q) true (.ret v K) ⟨Sx (.var .prd z τ), ρ', out, n'⟩) :
-    Chunk p q (R p q) false (.eval b env K) ⟨Sx B, ρ, out, n⟩ := by
+      Chunk p q (R p q) true cp μ (.ret v K) ⟨Sx (.var .prd z τ), ρ', out, n'⟩) :
+    Chunk p q (R p q) false cp μ (.eval b env K) ⟨Sx B, ρ, out, n⟩ := by
   rcases direct_sim (p := p) (goodClauses p) (goodClauses_find p) b hd env K ty0 st B st' n ρ0 ρ n
       hcB hst htn he hbd hag with
     ⟨v, j, hj, fj, hv⟩ | ⟨j, s1, w, fj, h1, h2⟩ | ⟨j, s1, w, r', fj, h1, h2, h3, _, h5⟩
   · obtain ⟨i, ρ', n', z, τ, V, hc, hn, hext, hl, hvr, hb⟩ :=
       core_operand' hv Sx out (hsp B)
-    exact Chunk.prefix fj hc rfl (fun _ => hj) (hF ρ' n' z τ v V hn hext hl hvr hb).weaken
+    exact Chunk.prefix fj hc rfl (fun _ => hj) (fun h => .inr h) (hF ρ' n' z τ v V hn hext hl hvr hb).weaken
   · exact .inl ⟨j, s1, .stuck w, fj, by rw [h1]; rfl, fun hf => absurd hf (bad_not_finished h2)⟩
   · refine .inl ⟨j, s1, .stuck w, fj, by rw [h1]; rfl, fun _ => ?_⟩
     have s1' := step_sigma (q := q) (st := ⟨Sx B, ρ, out, n⟩) (hsp B h3)
@@ -70,7 +70,7 @@ theorem operand_default {b : Fun.Term} (hg : good p b = true) {ty0 : Core.Ty} {s
     (hbd : BoundOn (tfvTerm B []) ρ0) (hag : AgreeOn (tfvTerm B []) ρ0 ρ)
     (hK : ∀ τ, KRel (GP p) q (n + 1) K
       (.mutilde ρ (Core.sigmaName n) (Sx (.var .prd (Core.sigmaName n) τ)))) :
-    Chunk p q (R p q) false (.eval b env K) ⟨Sx B, ρ, out, n⟩ := by
+    Chunk p q (R p q) false cp μ (.eval b env K) ⟨Sx B, ρ, out, n⟩ := by
   rw [hdef, defaultCompile_eq] at hcB
   cases hx : compileWithCont b (.var .cns ⟨(freshCovar st).1, 0⟩ ty0) (freshCovar st).2 with
   | error e => simp [hx] at hcB
@@ -87,7 +87,7 @@ theorem operand_default {b : Fun.Term} (hg : good p b = true) {ty0 : Core.Ty} {s
       (mu_inert (Core.sigmaName n) ty0 (Sx (.var .prd (Core.sigmaName n) ty0))) rfl .prd
     have ha_fresh := freshCovar_not_mem st
     have ha_sig := freshCovar_ne_sig st
-    refine .inr ⟨0, _, _, [], 2, _, .refl _, .inl ⟨rfl, rfl⟩, (fun h => by cases h),
+    refine .inr ⟨0, _, _, [], 2, _, .refl _, .inl ⟨rfl, rfl⟩, (fun h => by cases h), (fun _ => .inl (by decide)),
       (CSteps.one s1).trans (.one s2), by simp, ?_⟩
     refine SRel.eval (c := .var .cns ⟨(freshCovar st).1, 0⟩ ty0)
       (ρ0 := (⟨(freshCovar st).1, 0⟩,
@@ -125,7 +125,7 @@ theorem operand_label (hcod : CodOK p q) {a : String} {t : Fun.Term} {lty : Opti
     (hbd : BoundOn (tfvTerm B []) ρ0) (hag : AgreeOn (tfvTerm B []) ρ0 ρ)
     (hK : ∀ τ, KRel (GP p) q (n + 1) K
       (.mutilde ρ (Core.sigmaName n) (Sx (.var .prd (Core.sigmaName n) τ)))) :
-    Chunk p q (R p q) false (.eval (.label a t lty) env K) ⟨Sx B, ρ, out, n⟩ := by
+    Chunk p q (R p q) false cp μ (.eval (.label a t lty) env K) ⟨Sx B, ρ, out, n⟩ := by
   rw [c_label] at hcB
   simp only [good, Bool.and_eq_true] at hg
   obtain ⟨hgt, hncd⟩ := hg
@@ -151,7 +151,7 @@ theorem operand_label (hcod : CodOK p q) {a : String} {t : Fun.Term} {lty : Opti
       have ha_sig : a ≠ sig := fun e => htn.nosig (e ▸ ha_used)
       have f1 : FSteps p (.eval (.label a t (some τ)) env K) (.eval t ((a, .cont K) :: env) K) [] 1 :=
         .one rfl
-      refine .inr ⟨1, _, _, [], 2, _, f1, .inl ⟨rfl, rfl⟩, (fun h => by cases h),
+      refine .inr ⟨1, _, _, [], 2, _, f1, .inl ⟨rfl, rfl⟩, (fun h => by cases h), (fun _ => .inl (by decide)),
         (CSteps.one s1).trans (.one s2), by simp, ?_⟩
       refine SRel.eval (c := .var .cns ⟨a, 0⟩ (compileTy τ))
         (ρ0 := (⟨a, 0⟩, .mutilde ρ (Core.sigmaName n)
